@@ -15,7 +15,7 @@ META = {
     "level": "exploration",
     "rule": ("case = {A: hugr case, B: hugr case, parent choice} or a builder-insert scenario; distinct by JSON; "
              "non-trivial when B has >= 4 nodes and >= 1 of {hole, multi-linked port, order link, metadata}"),
-    "required": ["monitor:insert-iso", "monitor:A-unchanged", "monitor:B-unchanged", "monitor:builder-insert",
+    "required": ["monitor:insert-iso", "monitor:A-unchanged", "monitor:B-unchanged", "monitor:builder-insert", "feature:insert-into-nested-builder",
                  "feature:B-holes", "feature:B-multilink", "feature:B-order-link", "feature:B-metadata",
                  "feature:B-duplicate-link", "feature:parent-deep", "feature:A-holes",
                  "builder:insert_nested", "builder:insert_cfg", "builder:insert_conditional",
@@ -161,7 +161,11 @@ def check_insert(ctx, case, stratum="insert_hugr"):
     if depth >= 2:
         ctx.feat("feature:parent-deep")
     try:
-        mapping = A.insert_hugr(B, Node(parent))
+        if parent == A.root.idx and case["parent"] % 2 == 0:
+            ctx.feat("feature:default-parent")
+            mapping = A.insert_hugr(B)  # "parent: defaults to the root"
+        else:
+            mapping = A.insert_hugr(B, Node(parent))
     except ParentBeforeChild:
         ctx.count("refused:ParentBeforeChild")
         return False
@@ -209,9 +213,22 @@ def check_builder_insert(ctx, case, stratum="builder-insert"):
         tys_ = [st["sumty"], *st["otys"]]
     else:
         tys_ = [*st["jtys"], *st["rtys"]]
+    from hugr import ops
+
     host = Dfg(*tb.row(tys_))
-    # give the host something else to be left undisturbed
     ins = host.inputs()
+    hc = case.get("host")
+    if hc:
+        # the receiving HUGR has content of its own (nodes and links to be left undisturbed), and the receiving
+        # builder may itself be a nested region of it
+        ins = [host.add_op(ops.Noop(), w)[0] if hc["noops"][i % len(hc["noops"])] else w for i, w in enumerate(ins)]
+        for _ in range(hc.get("extra", 0)):
+            host.add_state_order(host.input_node, host.add_op(ops.Noop(), host.load(__import__("hugr").val.TRUE)))
+        if hc["nested"]:
+            ctx.feat("feature:insert-into-nested-builder")
+            outer = host
+            host = outer.add_nested(*ins)
+            ins = host.inputs()
     sA, sB = snap(host.hugr), snap(b.hugr)
     if kind == "dfg":
         n = host.insert_nested(b, *ins)
@@ -246,10 +263,10 @@ def check_builder_insert(ctx, case, stratum="builder-insert"):
     if res is None:
         return False
     # links: those of B mapped, plus exactly the wires input i -> n.inp(i); nothing else changed
-    inp = host.input_node.idx
     want = Counter({(m[s], so, m[t], to): c for (s, so, t, to), c in sB["links"].items()})
     for i in range(len(tys_)):
-        want[(inp, i, n.idx, i)] += 1
+        src = ins[i].out_port()
+        want[(src.node.idx, src.offset, n.idx, i)] += 1
     img = set(m.values())
     got = Counter({k: c for k, c in sA2["links"].items() if k[0] in img or k[2] in img})
     if want != got:
@@ -291,7 +308,8 @@ def run(ctx):
         p = gen_program(r, kind=kind, budget=15)
         if p["kind"] != kind:
             continue
-        case = {"prog": p}
+        case = {"prog": p, "host": {"nested": r.random() < 0.5, "noops": [r.random() < 0.5 for _ in range(3)],
+                                    "extra": r.randint(0, 2)}}
         nt = ctx.guard("builder-insert", case, check_builder_insert, ctx, case)
         ctx.case("builder-insert", case, bool(nt))
 
